@@ -24,7 +24,7 @@ from pyvc.symex import Executor
 from pyvc.values import (NONE, VBool, VBytes, VExc, VExt, VFunc, VInt, VSeq, VStr, VTuple, VType, VUnk,
                          ext_sort, fresh_name)
 from pyvc.verify import Maker, p_const, p_ext, p_obj, p_opt, p_str, p_unk
-from contracts import common
+from contracts import common, readfile
 
 X = "sharepoint2text/parsing/extractors/"
 ENC = X + "util/encryption.py"
@@ -49,6 +49,7 @@ OLE_OF = z3.Function("ole_container_of", BytesIO, OleFile)    # its directory vi
 EX = z3.Function("ole_exists", OleFile, S, B)                 # a stream/storage of that name exists
 SLEN = z3.Function("ole_stream_len", OleFile, S, I)           # stream content: length ...
 SBYTE = z3.Function("ole_stream_byte", OleFile, S, I, I)      # ... and byte at index (0..255)
+READABLE = z3.Function("ole_stream_readable", OleFile, S, B)   # openstream(name).read() succeeds (deterministic per container)
 ISZIP = z3.Function("zipfile_is_zipfile", BytesIO, B)
 ZIP_OF = z3.Function("zip_container_of", BytesIO, ZipFile)
 HASM = z3.Function("zip_has_member", ZipFile, S, B)
@@ -198,23 +199,25 @@ def m_ole_exists(ex, st, obj, args, kwargs, node):
 
 
 def m_ole_openstream(ex, st, obj, args, kwargs, node):
-    ex.exc_any(st.fork(), f"{ex.loc(node)} OleFileIO.openstream")
-    s = VExt("OleStream")
     a = args[0]
+    bad = st.fork()
+    if isinstance(a, VStr):
+        bad.assume(z3.Not(READABLE(obj.t, a.t)))
+    ex.exc_any(bad, f"{ex.loc(node)} OleFileIO.openstream")
+    s = VExt("OleStream")
     st.ghost[("olestream", s.t.get_id())] = (Term(obj.t), Term(a.t if isinstance(a, VStr) else z3.String(fresh_name("stream_name"))))
     return [(st, s)]
 
 
 def m_olestream_read(ex, st, obj, args, kwargs, node):
-    """OleStream.read(): ASSUMED to return the whole stream: a byte string of length SLEN >= 0."""
-    ex.exc_any(st.fork(), f"{ex.loc(node)} OleStream.read")
+    """OleStream.read(): ASSUMED to fail (stream not READABLE) or return the whole stream: a byte string of length SLEN >= 0."""
     key = st.ghost.get(("olestream", obj.t.get_id()))
     if key is None or args:
+        ex.exc_any(st.fork(), f"{ex.loc(node)} OleStream.read")
         return [(st, VUnk("bytes"))]
     ole, name = key[0].t, key[1].t
-    st.assume(SLEN(ole, name) >= 0)
-    if z3.is_string_value(name):
-        st.ghost[("stream_read", name.as_string())] = True
+    ex.exc_any(st.fork().assume(z3.Not(READABLE(ole, name))), f"{ex.loc(node)} OleStream.read")
+    st.assume(z3.And(SLEN(ole, name) >= 0, READABLE(ole, name)))
     return [(st, VSeq(SLEN(ole, name), lambda i: VInt(SBYTE(ole, name, i)), "byte", True, tag=(ole, name)))]
 
 
@@ -317,7 +320,7 @@ def raises_encrypted(stmt):
                                             for b in stmt.body for n in ast.walk(b))
 
 
-class C08Executor(Executor):
+class C08Executor(readfile.ReadFileExecutor):
     """int.from_bytes(slice, 'little') over a symbolic byte sequence; ghost bookkeeping for yields.
     `merge_after_check`: precise paths up to and including the rejection site, merged (over-approximated,
     sound) states for the remaining statements of that block -- a performance knob only."""
@@ -566,22 +569,101 @@ def doc_contracts(reg):
     reader = p_obj("_DocReader", {"file_like": p_ext("BytesIO"), "ole": p_ext("OleFile"), "_content": p_const(None),
                                   "_is_unicode": p_const(None), "_text_start": p_const(None)})
 
+    def mine(c):
+        """Raised by a `raise` statement of the reader class itself (possibly propagated from _parse_content through read)."""
+        a = c.exc.attrs if c.exc is not None else {"site": "-"}
+        return "site" not in a and a.get("from_callee", DOC).startswith(DOC)
+
     def only_if(c):
-        return z3.Implies(z3.And(z3.BoolVal(own(c)), is_enc_err(c)), z3.And(doc_is_word(c), doc_flag_set(c)))
+        return z3.Implies(z3.And(z3.BoolVal(mine(c)), is_enc_err(c)), z3.And(doc_is_word(c), doc_flag_set(c)))
 
     def if_(c):
-        # once the WordDocument stream has been read, a Word document with fEncrypted set has exactly one outcome
-        read_ok = bool(c.st.ghost.get(("stream_read", "WordDocument")))
-        return z3.Implies(z3.And(z3.BoolVal(read_ok), doc_is_word(c), doc_flag_set(c)), z3.And(z3.BoolVal(own(c)), is_enc_err(c)))
+        # a readable Word document with fEncrypted set has exactly one outcome
+        ole, nm = doc_view(c)
+        return z3.Implies(z3.And(READABLE(ole, nm), doc_is_word(c), doc_flag_set(c)), z3.And(z3.BoolVal(mine(c)), is_enc_err(c)))
 
-    t = f"{DOC}::_DocReader._parse_content"
-    EXECUTOR_KW[t] = {"abstract": True, "inline_calls": False, "merge_after_check": True}
-    return [FnContract(
-        target=t, params=[("self", reader)], modifies=("self",),
-        ensures=[("content-returned-only-if-fEncrypted-clear", lambda c: z3.Not(z3.And(doc_is_word(c), doc_flag_set(c))))],
+    out = []
+    for q in ("_DocReader._parse_content", "_DocReader.read"):
+        t = f"{DOC}::{q}"
+        EXECUTOR_KW[t] = {"abstract": True, "inline_calls": False, "merge_after_check": True}
+        out.append(FnContract(
+            target=t, params=[("self", reader)], modifies=("self",),
+            result_maker=lambda ex, st, ctx: VUnk("DocContent"),
+            ensures=[("content-returned-only-if-fEncrypted-clear", lambda c: z3.Not(z3.And(doc_is_word(c), doc_flag_set(c))))],
+            raises=[Raises("Exception", sub=True)],
+            exc_ensures=[("encrypted-error-only-if-fEncrypted-set", only_if), ("readable-and-fEncrypted-set-implies-encrypted-error", if_)],
+            note="first parse of a fresh reader (_content is None, set by __init__); FIB word at 0x0A, bit 0x0100"
+                 + ("" if q.endswith("_parse_content") else "; read() = _parse_content() (verified against its contract)")))
+
+    # read_doc: `with _DocReader(file_like) as doc: document = doc.read() ... yield document`
+    DocR = ext_sort("DocReader")
+    DR_OF = z3.Function("doc_reader_of", BytesIO, DocR)
+    DR_OLE = z3.Function("doc_reader_ole", DocR, OleFile)
+
+    def enc_doc(dr):
+        ole, nm = DR_OLE(dr), sv("WordDocument")
+        return z3.And(EX(ole, nm), SLEN(ole, nm) >= 0x200, z3.Or(u16(ole, nm, 0) == WORD97, u16(ole, nm, 0) == WORD95),
+                      ((u16(ole, nm, FIB_FLAGS_AT) / 256) % 2) == 1)
+
+    def new_docreader(ex, st, args, kwargs, node):
+        f = _fl(args[0]) if args else None
+        return [(st, VExt("DocReader", DR_OF(f.t)) if f is not None else VExt("DocReader"))]
+
+    def with_docreader(ex, st, cm, phase):
+        if phase == "enter":
+            ex.exc_any(st.fork(), "_DocReader.__enter__ (olefile.OleFileIO)")
+            st.ghost["doc_opened"] = True
+            return [(st, cm)]
+
+    def m_doc_read(ex, st, obj, args, kwargs, node):
+        """doc.read() on a fresh reader: by the verified contract of _DocReader.read -- an encrypted Word document raises the
+        file-encrypted error (or a library error while the stream is being read), any other input never raises it."""
+        e = enc_doc(obj.t)
+        rd = READABLE(DR_OLE(obj.t), sv("WordDocument"))
+        t, cnd = ex.uni.any_exception()
+        lib = st.fork().assume(z3.And(cnd, z3.Not(ex.uni.subclass_term(t, ENCERR)), z3.Not(z3.And(rd, e))))
+        ex.raise_in(lib, VExc(t, {"site": f"{ex.loc(node)} _DocReader.read (library / format error)"}))
+        enc = st.fork().assume(e)
+        ex.raise_in(enc, VExc(z3.IntVal(ex.uni.index[ENCERR]), {"detector": True}))
+        st.assume(z3.Not(e))
+        st.ghost["fib_checked"] = True
+        return [(st, VUnk("DocContent"))]
+
+    reg.ext_models[("new", "_DocReader")] = new_docreader
+    reg.ext_models[("with", "DocReader")] = with_docreader
+    reg.method_models[("DocReader", "read")] = m_doc_read
+    reg.method_models[("DocReader", "get_metadata")] = lambda ex, st, o, a, k, n: (ex.exc_any(st.fork(), "get_metadata"), [(st, VUnk("DocMetadata"))])[1]
+
+    def dsp(c):
+        return enc_doc(DR_OF(c.args["file_like"].t))
+
+    def chk(c):
+        return z3.BoolVal(bool(c.st.ghost.get("fib_checked")))
+
+    def from_detector(c):
+        return z3.BoolVal(c.exc is not None and bool(c.exc.attrs.get("detector")))
+
+    def doc_on_yield(ex, st, v, node):
+        f = input_of(st)
+        ex.add_vc("typestate", "no-result-before-the-FIB-check-passed", st.pc,
+                  z3.And(z3.BoolVal(bool(st.ghost.get("fib_checked"))), z3.Not(enc_doc(DR_OF(f)))) if f is not None else z3.BoolVal(False),
+                  loc=ex.loc(node))
+    t = f"{DOC}::read_doc"
+    cd = FnContract(
+        target=t, params=[("file_like", p_ext("BytesIO")), ("path", p_opt(p_str()))], generator=True, modifies=("file_like",),
+        requires=stash_input,
+        ensures=[("completes-only-if-not-encrypted", lambda c: z3.And(chk(c), z3.Not(dsp(c))))],
         raises=[Raises("Exception", sub=True)],
-        exc_ensures=[("encrypted-error-only-if-fEncrypted-set", only_if), ("fEncrypted-set-implies-encrypted-error", if_)],
-        note="first parse of a fresh reader (_content is None, set by __init__); FIB word at 0x0A, bit 0x0100")]
+        exc_ensures=[("fEncrypted-implies-encrypted-error-before-any-result",
+                      lambda c: z3.Implies(z3.And(z3.BoolVal(bool(c.st.ghost.get("doc_opened"))), READABLE(DR_OLE(DR_OF(c.args["file_like"].t)), sv("WordDocument")), dsp(c)),
+                                           z3.And(from_detector(c), is_enc_err(c), z3.BoolVal(n_yields(c) == 0)))),
+                     ("encrypted-error-only-if-fEncrypted",
+                      lambda c: z3.Implies(z3.And(z3.Or(from_detector(c), z3.BoolVal(own(c))), is_enc_err(c)), dsp(c)))],
+        note="DOC: the parse (FIB check) precedes the first yield; its file-encrypted error is passed through unchanged")
+    cd.on_yield = doc_on_yield
+    EXECUTOR_KW[t] = {"abstract": True, "inline_calls": False}
+    out.append(cd)
+    return out
 
 
 # ---- archives: ZIP flag bit 0, 7z AES coder ---------------------------------
@@ -1057,6 +1139,35 @@ def typestate_contracts(reg, detectors):
     return out
 
 
+# ---- entry point read_file: the extractor's file-encrypted error is passed through unchanged -------------
+def readfile_contracts(reg):
+    readfile.install(reg)
+    common.install_clock(reg)
+    out = []
+    from contracts import C07
+    for c in C07.contracts(reg):
+        if c.target.startswith(C07.ROUTER):
+            c.assumed = True
+            c.note = "verified by the C07 pack"
+            out.append(c)
+
+    def not_wrapped(c):
+        cause = c.exc.attrs.get("cause") if c.exc is not None else None
+        if own(c) and isinstance(cause, VExc):
+            return z3.Not(c.ex.uni.subclass_term(cause.tidx, ENCERR))
+        return z3.BoolVal(True)
+
+    t = f"{readfile.INIT}::read_file"
+    from pyvc.verify import p_int
+    out.append(FnContract(
+        target=t, params=[("path", p_str()), ("max_file_size", p_int(default=100 * 1024 * 1024))], generator=True,
+        raises=[Raises("Exception", sub=True)],
+        exc_ensures=[("file-encrypted-error-of-the-extractor-is-never-wrapped", not_wrapped)],
+        note="entry point: `except ExtractionError: raise` lets the extractor's ExtractionFileEncryptedError escape as such"))
+    EXECUTOR_KW[t] = {"abstract": True, "inline_calls": False}
+    return out
+
+
 def contracts(reg):
     install_container_models(reg)
     install_archive_models(reg)
@@ -1067,6 +1178,7 @@ def contracts(reg):
     out += epub_contracts(reg)
     out += pdf_contracts(reg)
     out += typestate_contracts(reg, out)
+    out += readfile_contracts(reg)
     return out
 
 
